@@ -17,90 +17,46 @@ import time
 import common
 
 ENGINE = "Print"
-CASE_HEADER = (
-    "From Coq Require Import String List Bool.\n"
-    "From Print Require Import Model ModelExpr ModelSyntax ModelCheck.\n"
-    "Import ListNotations.\nOpen Scope string_scope.\n"
-)
+DRIVER = common.COQ / ENGINE / "_build" / "c17_driver"
 
 
-def coq_str(s: str) -> str:
-    return '"' + s.replace('"', '""') + '"'
+def qs(s: str) -> str:
+    return '"' + s.replace("\\", "\\\\").replace('"', '\\"') + '"'
 
 
-def coq_strs(xs) -> str:
-    return "[" + "; ".join(coq_str(x) for x in xs) + "]"
+def qlist(xs) -> str:
+    return "(" + " ".join(qs(x) for x in xs) + ")"
 
 
 def printable(xs) -> bool:
     return all(32 <= ord(c) <= 126 for x in xs for c in x)
 
 
-class Cases:
-    """Gallina terms of type `list bool` evaluated by coqc (vm_compute) in shards that run in parallel"""
-
-    SHARD = 120
-    MAXPAR = 10
-
-    def __init__(self, ck):
-        self.ck = ck
-        self.d = common.SCRATCH / "c17_cases"
-        if self.d.exists():
-            import shutil
-            shutil.rmtree(self.d, ignore_errors=True)
-        self.d.mkdir(parents=True, exist_ok=True)
-        self.jobs = []  # (stream, file, n cases, width, Popen)
-        self.pending = []
-
-    def add(self, name, defs, width):
-        for k in range(0, len(defs), self.SHARD):
-            sh = defs[k:k + self.SHARD]
-            f = self.d / ("Cases_%s_%d.v" % (name, k // self.SHARD))
-            body = [CASE_HEADER]
-            for j, t in enumerate(sh):
-                body.append("Definition c%d : list bool := %s." % (j, t))
-            body.append("Definition all_cases : list bool := concat [%s]." % "; ".join("c%d" % j for j in range(len(sh))))
-            body.append("Eval vm_compute in all_cases.")
-            f.write_text("\n".join(body) + "\n")
-            self.pending.append((name, f, len(sh), width))
-
-    def run(self):
-        """-> {stream: [list of bool | None per case]}"""
-        import subprocess
-        running, todo = [], list(self.pending)
-        done = []
-        while todo or running:
-            while todo and len(running) < self.MAXPAR:
-                name, f, n, width = todo.pop(0)
-                p = subprocess.Popen("timeout 900 coqc -Q %s Print %s" % (common.COQ / ENGINE, f), shell=True,
-                                     cwd=str(self.d), stdout=subprocess.PIPE, stderr=subprocess.STDOUT, text=True)
-                running.append((name, f, n, width, p))
-            for job in list(running):
-                if job[4].poll() is not None:
-                    running.remove(job)
-                    done.append(job + (job[4].communicate()[0],))
-            time.sleep(0.1)
-        res = {}
-        for name, f, n, width, p, out in sorted(done, key=lambda j: (j[0], int(re.search(r"_(\d+)\.v$", j[1].name).group(1)))):
-            m = re.search(r"=\s*\[(.*?)\]\s*:\s*list bool", out, flags=re.S)
-            vals = re.findall(r"true|false", m.group(1)) if m else []
-            if p.returncode != 0 or len(vals) != n * width:
-                self.ck.broken_obligation("model-evaluation:%s" % f.name, "rc=%s, expected %d verdicts, got %d: %s"
-                                          % (p.returncode, n * width, len(vals), out[-400:]))
-                res.setdefault(name, []).extend([None] * n)
-                continue
-            vals = [v == "true" for v in vals]
-            res.setdefault(name, []).extend(vals[i * width:(i + 1) * width] for i in range(n))
-        return res
-
-
-def model_output(term: str) -> str:
-    """what the model computes for one term (diagnostics of a divergence)"""
+def run_driver(ck, name, jobs):
+    """one job per line into the extracted model (coq/Print/_build/c17_driver); -> [(bits, diagnostic) | None]"""
+    import subprocess
     d = common.SCRATCH / "c17_cases"
-    f = d / "Diag.v"
-    f.write_text(CASE_HEADER + "Eval vm_compute in (%s).\n" % term)
-    rc, out = common.sh("timeout 120 coqc -Q %s Print %s" % (common.COQ / ENGINE, f), cwd=str(d))
-    return out[-1500:]
+    d.mkdir(parents=True, exist_ok=True)
+    inp = d / ("%s.jobs" % name)
+    inp.write_text("\n".join(jobs) + "\n")
+    with open(inp) as fin:
+        p = subprocess.run([str(DRIVER)], stdin=fin, stdout=subprocess.PIPE, stderr=subprocess.PIPE, text=True, timeout=1500)
+    outs = p.stdout.split("\n")
+    if outs and outs[-1] == "":
+        outs.pop()
+    if p.returncode != 0 or len(outs) != len(jobs):
+        ck.broken_obligation("model-driver:" + name, "rc=%s, %d jobs, %d answers, stderr=%s"
+                             % (p.returncode, len(jobs), len(outs), p.stderr[-300:]))
+        outs = outs + ["(driver-error missing)"] * (len(jobs) - len(outs))
+    res = []
+    for o in outs:
+        if o.startswith("(driver-error"):
+            ck.broken_obligation("model-driver:" + name, o[:300])
+            res.append(None)
+            continue
+        head, _, diag = o.partition(" | ")
+        res.append(([b == "1" for b in head.split()], diag))
+    return res
 
 
 def run(ck: common.Check):
@@ -108,7 +64,9 @@ def run(ck: common.Check):
     t_start = time.time()
     ok_gen = ck.gen(ENGINE)
     ok_build = ck.coq_build(ENGINE, timeout=900)
-    ck.log("translator + coq build: %.1fs" % (time.time() - t_start))
+    ok_ext = ck.extract(ENGINE)
+    ck.obligation("extracted-model-driver", ok_ext and DRIVER.exists(), "" if ok_ext else "extract.sh failed")
+    ck.log("translator + coq build + extraction: %.1fs" % (time.time() - t_start))
     ck.cov["trusted_base"] = [
         "Coq 8.16.1 kernel (coqc, full .vo build of coq/Print); all nine theorems of Props_C17.v are closed under the global context",
         "translator/py2coq_printenv.py (fail-closed ast translator of class PrintEnv, ~230 lines) and the reading of "
@@ -123,10 +81,10 @@ def run(ck: common.Check):
         "statement-level parsing (def/for/if/alloc/window/call syntax, type annotations) is CPython's ast + "
         "exo/frontend/pyparser.py: observed by the round-trip search, not modelled; yapf's FormatCode (line breaking) "
         "is observed only through str(p) being a fixpoint",
-        "harness/c17_impl.py: exporter LoopIR -> Gallina terms (fail closed), the wrappers around PrintEnv.push/"
+        "harness/c17_impl.py: exporter LoopIR -> s-expressions (fail closed), the wrappers around PrintEnv.push/"
         "get_name, the scope-rule oracle, the module wrapper of the round trip; harness/semcheck.py + export.py + "
         "coq/Core extracted interpreter for behavioural comparison",
-        "vm_compute inside coqc evaluates the model on the exported cases (coq/Print/ModelCheck.v)",
+        "Coq extraction (ExtrOcamlBasic only) + OCaml 4.13 + coq/Print/driver.ml (s-expression reader, conversions, printers) evaluate the model (coq/Print/ModelCheck.v) on the exported cases",
     ]
     ck.assumptions = [
         "symbols have non-empty names (Sym.__init__ enforces is_valid_name); the environment is used with stack "
@@ -145,9 +103,9 @@ def run(ck: common.Check):
         ck.log("coq build failed; correspondence and search still run against the last good model if present")
 
     # ------------------------------------------------------------------ 2. the real implementation
-    n_prog = ck.n(50, 750)
-    n_expr = ck.n(250, 3000)
-    n_parse = ck.n(250, 3000)
+    n_prog = ck.n(60, 1000)
+    n_expr = ck.n(400, 4000)
+    n_parse = ck.n(400, 4000)
     budget = ck.n(70, 780)
     sdir = common.scratch_dir("c17_run")
     out = sdir / "impl.jsonl"
@@ -182,72 +140,59 @@ def run(ck: common.Check):
     if len(procs) < n_prog // 3 and not stats.get("stopped_on_time_budget"):
         ck.broken_obligation("generator-collapse", "only %d procedures printed" % len(procs))
 
-    # ------------------------------------------------------------------ 3. correspondence (model in coqc)
+    # ------------------------------------------------------------------ 3. correspondence (extracted model)
     t_corr = time.time()
-    model_ok = (common.COQ / ENGINE / "ModelCheck.vo").exists()
-    if not model_ok:
-        ck.broken_obligation("correspondence:not-run", "coq/Print/ModelCheck.vo missing")
+    if not (ok_ext and DRIVER.exists()):
+        ck.broken_obligation("correspondence:not-run", "coq/Print/_build/c17_driver missing")
     else:
         usable = [r for r in procs if printable(r["lines"]) and printable(r["names"])]
-        cases = Cases(ck)
-        cases.add("proc", ["ck_proc %s %s %s %s" % (r["coq"], r["ops"], coq_strs(r["names"]), coq_strs(r["lines"]))
-                           for r in usable], 3)
-        cases.add("expr", ["ck_expr %s %s %s" % (r["coq"], coq_str(r["text"]), "(Some %s)" % r["parsed"] if r["parsed"] else "None")
-                           for r in exprs], 2)
-        cases.add("parse", ["ck_parse %s %s" % (r["toks"], "(Some %s)" % r["parsed"] if r["parsed"] else "None")
-                            for r in parses], 1)
-        allres = cases.run()
-        for r, v in zip(usable, allres.get("proc", [])):
+        res = run_driver(ck, "proc", ["(ckproc %s %s %s %s)" % (r["coq"], r["ops"], qlist(r["names"]), qlist(r["lines"]))
+                                      for r in usable])
+        for r, v in zip(usable, res):
             sched = bool(r["applied"])
             tag = "%s:%s%s%s" % (r["gen"], "scheduled" if sched else "as-written", ":dup-names" if r["dup_names"] else "",
                                  ":renamed" if r["renamed"] else "")
-            for st in ("scheduled" if sched else "generated",):
-                for j, stream in enumerate(("envcalls", "names", "lines")):
-                    s = "%s-%s" % (stream, st)
-                    ck.case(s, r["coq"], bool(r["dup_names"]) or stream != "names",
-                            {"applied": r["applied"], "lines": r["lines"][:12], "names": r["names"][:12]} if j == 2 else None,
-                            tag=tag)
-                    if v is None:
-                        continue
-                    if v[j]:
-                        ck.corr_agree(s)
-                    else:
-                        what = ["ops_of_proc", "names_of (ops_of_proc", "print_proc"][j]
-                        detail = {"applied": r["applied"], "real_lines": r["lines"], "real_names": r["names"]}
-                        if ck.stream(s)["diverge"] < 2:
-                            term = "%s %s%s" % (what, r["coq"], ")" if j == 1 else "")
-                            detail["model"] = model_output(term)
-                        ck.corr_diverge(s, detail)
-        for r, v in zip(exprs, allres.get("expr", [])):
+            st = "scheduled" if sched else "generated"
+            for j, stream in enumerate(("envcalls", "names", "lines")):
+                s = "%s-%s" % (stream, st)
+                ck.case(s, r["coq"], bool(r["dup_names"]) or stream != "names",
+                        {"applied": r["applied"], "lines": r["lines"][:12], "names": r["names"][:12]} if j == 2 else None,
+                        tag=tag)
+                if v is None:
+                    continue
+                if v[0][j]:
+                    ck.corr_agree(s)
+                else:
+                    ck.corr_diverge(s, {"applied": r["applied"], "real_lines": r["lines"], "real_names": r["names"],
+                                        "model": v[1][:3000]})
+        res = run_driver(ck, "expr", ["(ckexpr %s %s %s)" % (r["coq"], qs(r["text"]), "(some %s)" % r["parsed"] if r["parsed"] else "(none)")
+                                      for r in exprs])
+        for r, v in zip(exprs, res):
             tag = ("wf" if r["wf_only"] else "any") + (":parens" if "(" in r["text"] else "")
             ck.case("expr-text", r["coq"], len(r["text"]) > 3, {"tree": r["coq"], "real_text": r["text"]}, tag=tag)
             ck.case("expr-parse", r["coq"], len(r["text"]) > 3, None, tag=tag)
             if v is None:
                 continue
-            if v[0]:
+            if v[0][0]:
                 ck.corr_agree("expr-text")
             else:
-                ck.corr_diverge("expr-text", {"tree": r["coq"], "real": r["text"],
-                                              "model": model_output("expr_text %s 0" % r["coq"])
-                                              if ck.stream("expr-text")["diverge"] < 2 else ""})
-            if v[1]:
+                ck.corr_diverge("expr-text", {"tree": r["coq"], "real": r["text"], "model": v[1]})
+            if v[0][1]:
                 ck.corr_agree("expr-parse")
             else:
-                ck.corr_diverge("expr-parse", {"text": r["text"], "real_front_end": r["parsed"] or r["err"],
-                                               "model": model_output("parse_expr (print_toks %s 0)" % r["coq"])
-                                               if ck.stream("expr-parse")["diverge"] < 2 else ""})
-        for r, v in zip(parses, allres.get("parse", [])):
+                ck.corr_diverge("expr-parse", {"text": r["text"], "real_front_end": r["parsed"] or r["err"], "model": v[1]})
+        res = run_driver(ck, "parse", ["(ckparse %s %s)" % (r["toks"], "(some %s)" % r["parsed"] if r["parsed"] else "(none)")
+                                       for r in parses])
+        for r, v in zip(parses, res):
             ck.case("parse-tokens", r["text"], len(r["text"]) > 5, {"text": r["text"], "real_front_end": r["parsed"] or r["err"]},
                     tag=("malformed:" if r.get("malformed") else "valid:") + ("accepted" if r["parsed"] else "rejected"))
             if v is None:
                 continue
-            if v[0]:
+            if v[0][0]:
                 ck.corr_agree("parse-tokens")
             else:
-                ck.corr_diverge("parse-tokens", {"text": r["text"], "real_front_end": r["parsed"] or r["err"],
-                                                 "model": model_output("parse_toks %s" % r["toks"])
-                                                 if ck.stream("parse-tokens")["diverge"] < 2 else ""})
-    ck.log("model evaluation (coqc, vm_compute): %.1fs" % (time.time() - t_corr))
+                ck.corr_diverge("parse-tokens", {"text": r["text"], "real_front_end": r["parsed"] or r["err"], "model": v[1]})
+    ck.log("model evaluation (extracted OCaml driver): %.1fs" % (time.time() - t_corr))
     for s, st in sorted(ck.streams.items()):
         ck.log("stream %-22s cases %6d agree %6d diverge %d" % (s, st["cases"], st["agree"], st["diverge"]))
 
